@@ -56,8 +56,20 @@ func dumpTy(t types.SessionType) *sup.TyNode {
 
 func dumpDefs(res *sup.Result, procs []*process.Process, env *process.GlobalEnvironment) {
 	if env.Types != nil {
+		lenv := types.ProduceLabelledSessionTypeEnvironment(*env.Types)
 		for _, d := range *env.Types {
-			res.Defs = append(res.Defs, sup.TypeDump{Name: d.Name, Mode: modeStr(d.Modality), Body: d.SessionType.StringWithModality(), Tree: dumpTy(d.SessionType)})
+			td := sup.TypeDump{Name: d.Name, Mode: modeStr(d.Modality), Body: d.SessionType.StringWithModality(), Tree: dumpTy(d.SessionType)}
+			if res.TcOK {
+				before := types.VerifStepCount(types.VhUnfold)
+				u := types.Unfold(types.NewLabelType(d.Name, d.Modality), lenv)
+				td.UnfoldSteps = types.VerifStepCount(types.VhUnfold) - before
+				if n := dumpTy(u); n != nil {
+					td.UnfoldKind = n.K
+				} else {
+					td.UnfoldKind = "nil"
+				}
+			}
+			res.Defs = append(res.Defs, td)
 		}
 	}
 	if env.FunctionDefinitions != nil {
